@@ -683,6 +683,7 @@ package rsm
 //@ func validateBlock [C14]
 //@ noframe
 //@ nobounds
+//@ modifies gHashIn, gHashInLen, gHashOut, gHashOutLen, fileutil.gMWptr, fileutil.gMWlen, fileutil.gMWcount
 //@ ensures len(block) <= 4 ==> !result
 //@ ensures len(block) > 4 ==> result == ufb("byteseq", ptr(block) + len(block) - 4, 4, gHashOut, gHashOutLen)
 //@ ensures len(block) > 4 ==> fileutil.gMWcount == 1 && fileutil.gMWptr == ptr(block) && fileutil.gMWlen == len(block) - 4
@@ -853,11 +854,13 @@ package rsm
 //@ func (ds *NativeSM) saveDummy [C08 C05]
 //@ noframe
 //@ nobounds
+//@ modifies gHashIn, gHashInLen
 //@ ensures gUserSaves == old(gUserSaves)
 //@ ensures result == nil ==> gHashIn == ptr(session) && gHashInLen == len(session)
 //@ func (ds *NativeSM) save [C08 C05]
 //@ noframe
 //@ nobounds
+//@ modifies gHashIn, gHashInLen, gUserSaves, gSessAtSave
 //@ ensures result == nil ==> gUserSaves == old(gUserSaves) + 1 && gSessAtSave == ptr(session)
 //@ ensures gUserSaves <= old(gUserSaves) + 1
 //@ iface (s IStateMachine) OnDisk
@@ -982,6 +985,7 @@ package rsm
 //@ func validateHeader [C14]
 //@ noframe
 //@ nobounds
+//@ modifies gHashIn, gHashInLen, gHashOut, gHashOutLen, fileutil.gMWptr, fileutil.gMWlen, fileutil.gMWcount
 //@ ghostset gHdrChecks := old(gHdrChecks) + 1
 //@ ghostset gHdrOK := result
 //@ ghostset gHdrData := ptr(header)
@@ -992,6 +996,7 @@ package rsm
 //@ func (sr *SnapshotReader) getHeader [C14]
 //@ noframe
 //@ nobounds
+//@ modifies *sr, gHdrChecks, gHdrOK, gHdrData, gLastReadN, gHashIn, gHashInLen, gHashOut, gHashOutLen, fileutil.gMWptr, fileutil.gMWlen, fileutil.gMWcount
 //@ ensures result1 == nil ==> gHdrChecks == old(gHdrChecks) + 1 && gHdrOK
 // (read-only library calls used by getHeader: no effect on modelled state)
 //@ extern io/fs (fi FileInfo) Size
